@@ -38,6 +38,9 @@ ASSUMPTIONS = ["numpy linear algebra", "reference gate table/simulator in vlib/r
                "rejection of a wrong-length vector = ValueError or AssertionError (the two forms the ansatz classes use)",
                "for ansaetze whose build_circuit itself calls update_var_params (HEA, pUCCD, UCC1/UCC3, ADAPT, VariationalCircuitAnsatz) the "
                "differential oracle detects history dependence only, not a wrong but consistent gate assignment",
+               "ADAPT reference (besides the fresh object): product over added operators and their Pauli words of exp(-i s theta_k P/2) with the "
+               "signs prepared as ADAPTSolver does, applied to the reference state - the ansatz applies every word with a unit-magnitude sign, so "
+               "its state is exp(theta_k (T_k - T_k^dagger)) only for generators whose words share one magnitude; that form is therefore not asserted",
                "VSQS reference: first/second-order Trotter product over the term lists stored by the ansatz (h_init_list, h_final_list, h_nav_list)",
                "<= 8 qubits (12 never), histories <= 6 ops quick / <= 10 thorough"]
 SHARDS = {"quick": 4, "thorough": 16}
@@ -97,6 +100,40 @@ def histories(draw, fam, cfg_strategy, max_ops):
     return {"cfg": cfg, "ops": ops}
 
 
+ADAPT_PATTERNS = [
+    ["build", "add", "update", "build", "add", "update"],                       # rebuild with an operator present, then grow again
+    ["build", "add", "add", "rebuild", "update", "add", "rebuild", "add", "update"],
+    ["build", "add", "update", "add", "update", "build", "add", "update"],
+    ["build", "add", "rebuild", "add", "update", "add", "update"],
+]
+
+
+@st.composite
+def adapt_histories(draw, cfg_strategy, max_ops):
+    """ADAPT life cycles as ADAPTSolver drives them: operators of different kinds (singles / doubles of the UCCGSD pool) are added,
+    the circuit is rebuilt (build_circuit(theta) or build_circuit()) while operators are present, grown again and updated with
+    non-zero, pairwise distinct values.  One case in four is a free history."""
+    cfg = draw(cfg_strategy)
+    if draw(st.integers(0, 3)) == 0:
+        ops = [draw(op_records("ADAPT", True))] + draw(st.lists(op_records("ADAPT", False), min_size=2, max_size=max_ops - 1))
+        return {"cfg": cfg, "ops": ops}
+    nonzero = st.one_of(st.floats(0.2, 3.0), st.floats(-3.0, -0.2), st.sampled_from([0.5, 1.0, -1.0, 7.1]))
+    ops = []
+    for k in draw(st.sampled_from(ADAPT_PATTERNS))[:max(max_ops, 6)]:
+        how = draw(st.sampled_from(PASS_MODES))
+        if k == "add":
+            ops.append({"op": "add_op", "i": draw(st.integers(0, 199)), "kind": draw(st.sampled_from(["s", "d", "d"]))})
+        elif k == "rebuild":
+            ops.append({"op": "build_kw", "kw": 0})          # build_circuit() without arguments, as VQESolver.build does
+        elif k == "update":
+            ops.append({"op": "update", "np": draw(st.booleans()), "pass": how,
+                        "th": {"k": "cycle", "base": draw(st.lists(nonzero, min_size=1, max_size=4)), "drift": draw(st.sampled_from([0.211, -0.07, 0.5])),
+                               "zero": []}})
+        else:
+            ops.append({"op": "build", "np": draw(st.booleans()), "pass": how, "th": draw(recipes())})
+    return {"cfg": cfg, "ops": ops}
+
+
 # ------------------------------------------------------------------------------------------------ interpreter
 
 def reference_state(cfg, obj, n):
@@ -148,6 +185,29 @@ def vsqs_expected(cfg, obj, th, n):
     return block(psi, obj.h_final_list, dt)
 
 
+def adapt_pool_index(cfg, op):
+    """Pool index of an add_op record; "kind" s/d selects among the singles / doubles of the UCCGSD pool (singles come first)."""
+    pool = _adapt_pool(cfg)
+    if op.get("kind") in ("s", "d"):
+        from tangelo.toolboxes.ansatz_generator._general_unitary_cc import get_singles_number
+        ns = get_singles_number(mol(cfg["mol"]).n_active_sos // 2)
+        return op["i"] % ns if op["kind"] == "s" else ns + op["i"] % (len(pool) - ns)
+    return op["i"] % len(pool)
+
+
+def adapt_expected(cfg, obj, adapt_ops, th, n):
+    """ADAPT state from its definition, independent of the ansatz object's bookkeeping: reference state, then for every added
+    operator k (in the order added) and every Pauli word P_kj of it (term order of the operator, sign s_kj = +-1 as prepared by
+    ADAPTSolver) the rotation exp(-i s_kj theta_k P_kj / 2)."""
+    psi, _ = reference_state(cfg, obj, n)
+    pool = _adapt_pool(cfg)
+    for k, i in enumerate(adapt_ops):
+        for word, sgn in pool[i].terms.items():
+            ang = float(np.real(sgn)) * th[k] / 2
+            psi = math.cos(ang) * psi - 1j * math.sin(ang) * R.apply_pauli_term(psi, word, n)
+    return psi
+
+
 def run_history(ctx, case):
     cfg, ops = case["cfg"], case["ops"]
     a = cfg["a"]
@@ -168,6 +228,7 @@ def run_history(ctx, case):
     patterns, n_updates, support_change, bad_attempt = [], 0, False, False
     prev_was_accept = False
 
+    n_builds_with_ops, pending_after_rebuild = [0], [False]   # ADAPT reach: rebuild with operators present, then add, then non-zero update
     carrier = [None]                                      # caller-owned vector of the "reuse" mode
     aliasing_update = [False]
 
@@ -226,6 +287,12 @@ def run_history(ctx, case):
             if abs(fs - 1) > 1e-8:
                 raise Fail(f"VSQS: after {how} the circuit's state differs from the Trotter product it documents: fidelity {fs:.12f}; "
                            f"theta={list(th)}", sig="vsqs-not-trotter-product", theta=list(th), fidelity=fs, after=how)
+        if a == "ADAPT":
+            fa = fidelity(got, adapt_expected(cfg, obj, adapt_ops, th, n))
+            if abs(fa - 1) > 1e-8:
+                raise Fail(f"ADAPT: after {how} the circuit's state differs from the product of word rotations exp(-i s theta_k P/2) of the "
+                           f"{len(adapt_ops)} added operators: fidelity {fa:.12f}; theta={list(th)}", sig="adapt-not-product-of-word-rotations",
+                           theta=list(th), fidelity=fa, after=how)
         if a in EXCITATION_BASED and len(th) > 0 and all(x == 0.0 for x in th):
             exp, kind = reference_state(cfg, obj, n)
             f0 = fidelity(got, exp)
@@ -266,6 +333,14 @@ def run_history(ctx, case):
             still_holds(vec, th, "build_circuit" if kind == "build" else "update_var_params")
             labels.add(f"pass={mode}")
             labels.add(f"pass={mode}:{kind}")
+            if a == "ADAPT":
+                if kind == "build" and adapt_ops:
+                    n_builds_with_ops[0] += 1
+                    pending_after_rebuild[0] = False
+                if kind == "update" and pending_after_rebuild[0] and th and all(x != 0.0 for x in th):
+                    labels.add("nonzero-update-after-rebuild+add")
+                if len(set(len(_adapt_pool(cfg)[i].terms) for i in adapt_ops)) >= 2:
+                    labels.add("operators-of-different-word-counts")
             if kind == "update" and mode in ("stored", "set_then_update", "reuse"):
                 aliasing_update[0] = True
             if obj.n_var_params != n:
@@ -309,6 +384,9 @@ def run_history(ctx, case):
             patterns.append(tuple(x == 0.0 for x in th))
             prev_was_accept = True
             labels.add("keyword-build" if kw is not None else "default-build")
+            if a == "ADAPT" and adapt_ops:
+                n_builds_with_ops[0] += 1
+                pending_after_rebuild[0] = False
             check_equiv(th, f"build_circuit({kw!r})#{step}")
         elif kind in ("bad_update", "bad_build"):
             if kind == "bad_update" and not built:
@@ -343,9 +421,15 @@ def run_history(ctx, case):
             if not built:
                 continue
             pool = _adapt_pool(cfg)
+            pi = adapt_pool_index(cfg, op)
+            rebuilt_with_ops = bool(adapt_ops) and n_builds_with_ops[0] > 0
             with quiet():
-                obj.add_operator(copy.deepcopy(pool[op["i"] % len(pool)]))
-            adapt_ops.append(op["i"])
+                obj.add_operator(copy.deepcopy(pool[pi]))
+            adapt_ops.append(pi)
+            labels.add("add:single" if len(pool[pi].terms) <= 4 else "add:double-or-longer")
+            if rebuilt_with_ops:
+                labels.add("add-after-rebuild-with-operators")
+                pending_after_rebuild[0] = True
             if obj.n_var_params != n + 1:
                 raise Fail(f"ADAPT: n_var_params {obj.n_var_params} after add_operator, expected {n + 1}", sig="n_var_params:ADAPT.add_operator")
             # the new gates carry a placeholder angle until the next update: no equivalence is claimed here
@@ -454,9 +538,11 @@ def p_puccd(ctx):
     _family_part(ctx, "pUCCD")
 
 
-@part("adapt", quick=48, thorough=3200)
+@part("adapt", quick=64, thorough=3200)
 def p_adapt(ctx):
-    _family_part(ctx, "ADAPT")
+    cfgs = family_configs("ADAPT", ctx.tier)
+    max_ops = 9 if ctx.tier == "quick" else 12
+    ctx.search("adapt", adapt_histories(st.sampled_from(cfgs), max_ops), lambda case: run_history(ctx, case), exclusions=EXCLUSIONS)
 
 
 @st.composite
